@@ -12,7 +12,7 @@
    m bytes (all but one at most when term = None: a short write without error) and reports term. *)
 From Coq Require Import String.   (* first, so that List.length etc. from Lib.Base take precedence *)
 From Verif Require Import Lib.Base Lib.Sx Lib.Err Lib.IO Model.ErrorsPkg Model.Faults.
-From Verif Require Import Proofs.ErrorsPkg Proofs.FaultsIO Proofs.Faults Proofs.FaultsFlv Proofs.FaultsWrite Proofs.FaultsBufw Proofs.FaultsBufwPeer Proofs.FaultsTransient.
+From Verif Require Import Proofs.ErrorsPkg Proofs.FaultsIO Proofs.Faults Proofs.FaultsFlv Proofs.FaultsWrite Proofs.FaultsBufw Proofs.FaultsBufwPeer Proofs.FaultsTransient Proofs.FaultsEntry.
 From Verif Require Model.Flv Proofs.Flv.
 From Verif Require Gen.Gen_errors.
 From Verif Require Model.RtmpChunk Proofs.RtmpChunk Proofs.RtmpChunkRT Proofs.FaultsRtmpChunk.
@@ -412,6 +412,79 @@ Theorem c08_rtmp_write_shapes sticky hs ms i m e :
   (oe <> None -> oe = Some e).
 Proof. exact (rtmp_write_session_shapes sticky hs ms i m e). Qed.
 
+(* EVERY PUBLIC WRITE ENTRY POINT.  An operation of a session goes through WriteMessage, or through
+   WritePacket with a packet of any kind (connect, createStream, their responses, call, publish, play,
+   SetChunkSize, WindowAcknowledgementSize, SetPeerBandwidth, UserControl).  Model/Faults.v transcribes
+   WritePacket: marshal, register the transaction of a request (ConnectAppPacket / CreateStreamPacket
+   with tid > 0 and a command name), WriteMessage, and on failure roll the registration back and return
+   the WriteMessage error with one more layer.  Whatever the mix of entry points, the session has the
+   outcome of the WriteMessage-only session over the same messages: same number of completed
+   operations, same error, same transport -- the registration and its roll-back never touch the
+   result of the write. *)
+Theorem c08_rtmp_write_entry_points hs ops w :
+  let '(n, oe, w', t) := rtmp_write_session_e hs ops w in
+  rtmp_write_session hs (map snd ops) w = (n, oe, w').
+Proof. exact (rtmp_write_session_e_proj hs ops w). Qed.
+
+(* c08_rtmp_write_which / c08_rtmp_write_shapes restated over such operation lists: for every fault
+   shape that reports an error e (sticky or transient, any number m of accepted bytes) at transport
+   Write call i, the session completes exactly free_done i operations, it ends without error iff the
+   fault index lies beyond the last write of the fault-free session, and the error it returns is e;
+   for a sticky transport also when the faulty call is a short write without error (term = None). *)
+Theorem c08_rtmp_write_which_entry_points sticky hs ops i m e :
+  let ms := map snd ops in
+  let '(n, oe, w, t) := rtmp_write_session_e hs ops (wtr_new_s sticky (Some i) m (Some e)) in
+  n = free_done i hs ms m (Some e) /\
+  (oe = None <-> free_calls hs ms m (Some e) <= i) /\
+  (oe <> None -> oe = Some e).
+Proof.
+  intros ms. pose proof (rtmp_write_session_e_proj hs ops (wtr_new_s sticky (Some i) m (Some e))) as P.
+  destruct (rtmp_write_session_e hs ops _) as [[[n oe] w] t].
+  pose proof (rtmp_write_session_shapes sticky hs ms i m e) as Q. fold ms in P. rewrite P in Q.
+  destruct (rtmp_write_session hs ms (wtr_new (Some i) m (Some e))) as [[ns oes] ws].
+  destruct Q as (_ & _ & _ & Q1 & Q2 & Q3). auto.
+Qed.
+
+Theorem c08_rtmp_write_which_entry_points_sticky hs ops i m term :
+  let ms := map snd ops in
+  let '(n, oe, w, t) := rtmp_write_session_e hs ops (wtr_new (Some i) m term) in
+  n = free_done i hs ms m term /\ (oe = None <-> free_calls hs ms m term <= i).
+Proof.
+  intros ms. pose proof (rtmp_write_session_e_proj hs ops (wtr_new (Some i) m term)) as P.
+  destruct (rtmp_write_session_e hs ops _) as [[[n oe] w] t].
+  pose proof (rtmp_write_session_which hs ms i m term) as Q. fold ms in P. rewrite P in Q. exact Q.
+Qed.
+
+(* The roll-back: when the session ends with an error during a WritePacket of a request, that
+   request's transaction id is not registered afterwards (the operation that failed is number
+   n - 3 resp. n of the list; t = [] when the handshake failed); without an error the transactions are
+   exactly the registrations of the requests, in order. *)
+Theorem c08_rtmp_write_rollback hs ops w :
+  let '(n, oe, w', t) := rtmp_write_session_e hs ops w in
+  (oe <> None ->
+   t = [] \/
+   exists e m, nth_error ops (N.to_nat (n - hs_count hs)) = Some (e, m) /\ hs_count hs <= n /\
+               forall x, request_tid e = Some x -> ~ In x (map fst t)) /\
+  (oe = None -> t = registered (map fst ops) []).
+Proof.
+  pose proof (rtmp_write_session_e_rollback hs ops w) as P.
+  pose proof (rtmp_write_session_e_registered hs ops w) as Q.
+  destruct (rtmp_write_session_e hs ops w) as [[[n oe] w'] t]. split; assumption.
+Qed.
+
+(* non-vacuity: handshake, connect (tid 1, 35-byte payload), createStream (tid 2), a 300-byte message
+   through WriteMessage.  Fault at transport write 4 (the flush of createStream): 4 operations
+   succeeded, WritePacket(createStream) returns the injected error 4, and only the connect request is
+   still registered; fault at write 5: the message fails, both requests stay registered. *)
+Example c08_rtmp_write_entry_points_example :
+  let ops := [(ViaPacket 0 1 true, pkt_msg 0 1 true 5); (ViaPacket 1 2 true, pkt_msg 1 2 true 0);
+              (ViaMessage, mk_rmsg 0 3 9 1000 300 0)] in
+  (let '(n, e, w, t) := rtmp_write_session_e true ops (wtr_new (Some 4) 0 (Some 4)) in
+   n = 4 /\ e = Some 4 /\ t = [(1, 0)]) /\
+  (let '(n, e, w, t) := rtmp_write_session_e true ops (wtr_new_s false (Some 5) 7 (Some 4)) in
+   n = 5 /\ e = Some 4 /\ map fst t = [2; 1]).
+Proof. vm_compute. auto. Qed.
+
 (* The same over the rtmpchunk builder's WRITER: `their_wops` are the pieces WriteMessage copies into
    the bufio.Writer, as slices of their wire (c0 header, payload part, c3 header, payload part, ...):
    concatenated per message they are exactly the byte strings ws of `write_all`.  For every message
@@ -492,6 +565,10 @@ Print Assumptions c08_rtmp_write_partial.
 Print Assumptions c08_rtmp_write_which.
 Print Assumptions c08_rtmp_write_peer.
 Print Assumptions c08_rtmp_write_shapes.
+Print Assumptions c08_rtmp_write_entry_points.
+Print Assumptions c08_rtmp_write_which_entry_points.
+Print Assumptions c08_rtmp_write_which_entry_points_sticky.
+Print Assumptions c08_rtmp_write_rollback.
 Print Assumptions c08_rtmp_write.
 Print Assumptions c08_rtmp_write_no_fault.
 Print Assumptions c08_bufio_write_ops.
